@@ -170,6 +170,11 @@ change arrived; "now" is `./sensitivity.sh` on the final checks (quick tier, def
 {first} of {n} were caught at the first attempt; {now-first} more after the checks were
 strengthened as listed (workload and oracle extensions, new seams and environment
 dimensions), without loosening anything; {n-now} remain missed (C12-b-2: blind spot, 10.4; C12-f-3 and C09-h-1: see their rows).
+The last full `./sensitivity.sh` run (all 136 changes against the final checks) also exposed a
+regression of my own: seeded/C08-b-2, caught since wave b, was missed once the workloads of
+waves g-h had shifted the seeded stream — the pair of stanzas that exposes it was mostly
+trimmed away before execution. Rare workload pairs are now generated after the trimming step
+with a probability of their own, and all 17 C08 changes were re-run: caught.
 
 My own mutants (`/verif/mutants/`, all compile and pass the test-suite; the CLI ones
 trivially, since the suite does not build the CLI):
